@@ -335,11 +335,11 @@ type request struct {
 	BatchTxt  string
 
 	// raw
-	RawTx     *reftx.Tx
+	RawTx      *reftx.Tx
 	RawMissing bool // some prev-tx is absent from balance/
 	RawBadVout bool
-	RawAsArg  bool
-	RawBinary bool
+	RawAsArg   bool
+	RawBinary  bool
 }
 
 func (q *request) applies() bool { return q.Apply == 0 || q.Apply == 3 }
